@@ -27,3 +27,47 @@ PROPS['C24'] = dict(
                'constant allotments sum to 100% is covered under C22 (VisitAllotment).',
 )
 NOT_CLAIMED = {}
+
+
+def hist_tie(pid, quick=150, thorough=3000, extra=None):
+    args = ['-monitors', pid, '-features', 'mixed'] + (extra or [])
+    return dict(name='TIE-D hist', vh='hist', model='hist', n=dict(quick=quick, thorough=thorough), args=dict(all=args), kinds=[pid])
+
+
+HIST_RULE = ('histories of 1..12 operations generated online against the running implementation from one PRNG (VERIF_SEED): create (1-3 postings, accounts from a 6-name '
+             'alphabet incl. world, src=dst, zero and >2^64 amounts, back/future-dated timestamps on a small lattice, references r1/r2 reused, metadata, account metadata, '
+             'force), revert (force / atEffectiveDate, mostly of existing transactions), set/delete metadata on transactions and accounts, replays under an idempotency key '
+             'with same or altered input, 8% dry runs; 5 feature sets; non-trivial = history with >=2 committed writes; after EVERY operation the ledger is read back through the '
+             'real read paths (list transactions/accounts/volumes/logs with small page sizes, aggregated balances) plus the raw moves and metadata-history tables')
+HIST_TRUST = ['pgsem (harness/go/pgsem): executable stand-in for PostgreSQL executing the SQL text the real code emits (statement snapshots, triggers parsed from the '
+              'current migrations, unique indexes, sequences); all SQL-dependent verdicts are relative to it',
+              'modelled, not verified: bun query building/scanning, encoding/json, math/big, the ANTLR Numscript front end (exercised through TxToScriptData), OpenTelemetry wrappers']
+HIST_NOTE = ('Trusted: Coq kernel; extraction; the pgsem stand-in for PostgreSQL (no real database in the sandbox); the Go harness. The theorem is about Ledger/Core.v (mirror of '
+             'storage + controller write path, one ledger, sequential); the differential run compares, after every operation, results and the full ledger state of model and real stack.')
+
+
+def ledger_prop(pid, theorems, technique, level_text, explanation, quick=150, thorough=3000, extra=None, more_ties=None):
+    PROPS[pid] = dict(target='Props/' + pid, theorems=theorems, ties=[hist_tie(pid, quick, thorough, extra)] + (more_ties or []),
+                      rule=HIST_RULE, explanation=explanation, trusted=HIST_TRUST, technique=technique, level_text=level_text, level_note=HIST_NOTE)
+
+
+ledger_prop('C01', ['C01_conservation', 'C01_fold_conservation', 'C01_moves_pairs'],
+            'Coq proof (invariant by induction over histories: volumes = fold of postings, rows duplicate-free and covering) + differential run of the extracted model against the real stack on pgsem',
+            'Unbounded theorem: after any history, for every asset, total input = total output over the rows of accounts_volumes (model Ledger/Core.v); same for any fold of postings over a covering key set (what PIT reads compute). Tie: model = real stack after every operation of generated histories; monitor re-checks conservation on volumes listing, aggregated balances, account reads and moves.',
+            'C01_conservation is proved for every feature set and history; PIT/window forms are covered through C01_fold_conservation here and the read mirrors of C05. Monitor: Σin-Σout per asset on 4 read paths.')
+ledger_prop('C02', ['C02_volumes_are_fold', 'C02_fold_meaning', 'C02_failed_noop', 'C02_dry_noop'],
+            'Coq proof (refinement: incrementally maintained accounts_volumes row = fold of stored postings, by induction over histories) + differential run against the real stack',
+            'Unbounded theorem: for every history and every account/asset the stored volumes equal (Σ credits, Σ debits) over the postings of the stored transactions, reverts included; failed and dry-run operations change no table. Tie: model = real stack after every operation; monitor folds the postings of the RESULTS the implementation returned and compares with three read paths.',
+            'The theorem is at table level; the read paths (GetAccount/ListAccounts expand volumes, GetVolumesWithBalances, aggregated balances) are exercised for real on every step and compared with model and monitor.')
+ledger_prop('C07', ['C07_error_no_trace', 'C07_dry_run_no_trace', 'C07_dry_run_same_answer', 'C07_replay_identity'],
+            'Coq proof (frame property of the step function: error/dry-run/replay leave all tables equal) + differential run + snapshot-equality monitor on the real stack',
+            'Unbounded theorem: any operation returning an error, any dry run and any idempotent replay leave all seven tables unchanged, and a dry run returns the answer of the real write. Tie: model = real stack; monitor compares complete ledger snapshots (all read paths + raw tables) before/after every failed or dry-run operation.',
+            'In the model rollback is structural (one SQL transaction per operation); that the real code routes every store call through that transaction is what the snapshot monitor and the fault-injection tie check on the real stack.')
+ledger_prop('C14', ['C14_unique_references', 'C14_reuse_is_conflict', 'C14_empty_reference_exempt'],
+            'Coq proof (invariant: non-empty references duplicate-free, by induction over histories) + differential run; the unique partial index is read from the current migration text by pgsem',
+            'Unbounded theorem (sequential histories): at most one stored transaction per non-empty reference; a create reusing one returns reference-conflict with no effect; the empty reference is exempt. Tie: model = real stack; monitor checks uniqueness and the conflict outcome on the implementation.',
+            'Concurrent racers are covered by the unique-index wait rule of pgsem in the schedule runs (C06/C13 harness), not by this theorem.')
+ledger_prop('C16', ['C16_tx_ids_increase', 'C16_log_ids_increase', 'C16_ids_unique', 'C16_ids_below_sequence'],
+            'Coq proof (invariant: stored ids strictly increasing in commit order and below the sequence) + differential run',
+            'Unbounded theorem for sequential executions: transaction ids and log ids are unique and strictly increase in commit order, gaps only from rolled-back draws. Tie: model = real stack incl. ids after failures and dry runs.',
+            'Sequential part only is proved; commit order vs id order under concurrency is examined by the schedule harness.')
